@@ -7,6 +7,7 @@
 //!   startport none | single p | range a b  get_start_port_if_applicable -> none | some p
 //!   registry <missing|b> <utf8> <tp>       NodeRegistry::load(path): utf8 = 1|0|na (std::str::from_utf8 on the bytes),
 //!                                          tp = na | err | ok:<nodes> (serde_json::from_str::<NodeRegistry> called directly)
+//!   logformat <s> | logdest <s>            ant_logging::LogFormat / LogOutputDest ::parse_from_str -> ok <name> | err | panic
 //!   regsave <A> <B> <lenA> <lenB> <nB>     on ONE path: A.save(); B.save(); NodeRegistry::load(path). A, B = registry specs
 //!                                          `nodes,envvars,envvaluelen,nat` (nat 0 = none, 1 Public, 2 UPnP, 3 Private);
 //!                                          lenA/lenB = length of serde_json::to_string of each, nB = nodes of B (witnesses,
@@ -84,6 +85,23 @@ fn exec(line: &str, tmp: &std::path::Path) -> (String, String) {
                 op = format!("registry {src} {utf8} {tp}");
                 match NodeRegistry::load(&path) {
                     Ok(r) => format!("ok {}", r.nodes.len()),
+                    Err(_) => "err".into(),
+                }
+            }
+            ["logformat", h] => {
+                let Some(s) = s_of(h) else { return "bad-op".into() };
+                match ant_logging::LogFormat::parse_from_str(&s) {
+                    Ok(f) => format!("ok {}", f.as_str()),
+                    Err(_) => "err".into(),
+                }
+            }
+            ["logdest", h] => {
+                let Some(s) = s_of(h) else { return "bad-op".into() };
+                match ant_logging::LogOutputDest::parse_from_str(&s) {
+                    Ok(ant_logging::LogOutputDest::Stdout) => "ok stdout".into(),
+                    Ok(ant_logging::LogOutputDest::Stderr) => "ok stderr".into(),
+                    Ok(ant_logging::LogOutputDest::Path(_)) if s == "data-dir" => "ok data-dir".into(),
+                    Ok(ant_logging::LogOutputDest::Path(p)) => if p == std::path::PathBuf::from(&s) { "ok path".into() } else { "ok other-path".into() },
                     Err(_) => "err".into(),
                 }
             }
@@ -253,6 +271,25 @@ fn numeric_edge(rng: &mut Rng, good: &str) -> String {
 
 /// Install a TRACE-level subscriber that really formats every event (into a sink), so that the
 /// `Display`/`Debug` impls reached from the parsers' log statements are executed under `catch_unwind`.
+/// "Long non-ASCII" family: strings of `fill` with one 2-, 3- or 4-byte char starting at every byte
+/// offset 0..=max, once near the end of the string and once followed by padding up to `max` bytes
+/// (slicing a &str at a fixed byte offset is the typical slip; it only fails inside such a char).
+fn non_ascii_sweep(fill: char, max: usize) -> Vec<String> {
+    let mut v = vec![];
+    for off in 0..=max {
+        for ch in ['é', '€', '😀'] {
+            let head: String = std::iter::repeat(fill).take(off).collect();
+            v.push(format!("{head}{ch}{fill}"));
+            let used = off + ch.len_utf8();
+            if used + 1 < max {
+                let tail: String = std::iter::repeat(fill).take(max - used).collect();
+                v.push(format!("{head}{ch}{tail}"));
+            }
+        }
+    }
+    v
+}
+
 fn install_formatting_subscriber() {
     let _ = tracing_subscriber::fmt()
         .with_max_level(tracing::Level::TRACE)
@@ -297,6 +334,20 @@ fn main() {
         for s in ["", "-", "+", "+1", "-1", "1-", "-1-2", "1-2-3", "1-1", "2-1", "1-2", "+1-+2", "00001-00002", "65535", "65536", "65535-65536", "0-65536",
                   "0-0", "1 - 2", " 1", "1\n", "１-２", "1–2", "0x10", "1_0", "١-٢", "99999999999999999999", "1-99999999999999999999", "--", "1--2", "é"] {
             v.push(format!("portparse {}", hx(s)));
+        }
+        // "long non-ASCII" family on the text parsers: a multi-byte char at every byte offset
+        for s in ["default", "json", "stdout", "data-dir", "", "Default", "json ", "/var/log/antnode", "données"] {
+            v.push(format!("logformat {}", hx(s)));
+            v.push(format!("logdest {}", hx(s)));
+        }
+        for (i, t) in non_ascii_sweep('1', 200).into_iter().enumerate() {
+            v.push(format!("portparse {}", hx(&t)));
+            if i % 4 == 0 {
+                v.push(format!("portparse {}", hx(&format!("1-{t}"))));
+                v.push(format!("portparse {}", hx(&format!("{t}-2"))));
+                v.push(format!("logformat {}", hx(&t)));
+                v.push(format!("logdest {}", hx(&t)));
+            }
         }
         for _ in 0..args.n {
             match rng.below(14) {
